@@ -40,7 +40,8 @@ Definition fmtw_fn_expected : bstr := "def _get_code_for_spaces(self, node):
         spaces = re.sub(b'^ *$', b'', spaces)
     spaces = re.sub(b'\\n\\n+', b'\n\n', spaces)
     if self._pos == len(self._tokens):
-        spaces = re.sub(b'[ \\n]+$', b'\n', spaces)
+        spaces = re.sub(b'[ \\n]*\\n[ \\n]*\\Z', b'\n', spaces)
+        spaces = re.sub(b' +\\Z', b'', spaces)
     return spaces"%bs.
 
 Definition minw_fn_expected : bstr := "def _get_code_for_spaces(self, node):
@@ -225,16 +226,29 @@ Proof.
   rewrite nonws_app, (nonws_all_ws _ (is_nl_ws _ H2)), (nonws_all_ws _ Hr). reflexivity.
 Qed.
 
-Lemma ws_only_spnl1_end : ws_only m_spnl1_end.
+Lemma ws_only_spnl_nl_end : ws_only m_spnl_nl_end.
 Proof.
-  intros s rep k H. unfold m_spnl1_end in H. destruct s as [|c r]; [discriminate|].
+  intros s rep k H. unfold m_spnl_nl_end in H. destruct s as [|c r]; [discriminate|].
   destruct (is_sp_nl c) eqn:Ec; [|discriminate].
   destruct (span_p is_sp_nl (c :: r)) as [n t] eqn:E. destruct t; [|discriminate].
+  destruct (existsb is_nl (c :: r)); [|discriminate].
   inversion H; subst.
   pose proof (span_len _ _ _ _ E) as HL.
   split; [cbn in *; lia|].
   destruct (span_p_spec _ _ _ _ E) as (_ & H2 & _ & _).
   rewrite (nonws_all_ws _ (is_sp_nl_ws _ H2)). reflexivity.
+Qed.
+
+Lemma ws_only_sp1_end : ws_only m_sp1_end.
+Proof.
+  intros s rep k H. unfold m_sp1_end in H. destruct s as [|c r]; [discriminate|].
+  destruct (c =? SP) eqn:Ec; [|discriminate].
+  destruct (span_p is_sp (c :: r)) as [n t] eqn:E. destruct t; [|discriminate].
+  inversion H; subst.
+  pose proof (span_len _ _ _ _ E) as HL.
+  split; [cbn in *; lia|].
+  destruct (span_p_spec _ _ _ _ E) as (_ & H2 & _ & _).
+  rewrite (nonws_all_ws _ (is_sp_ws _ H2)). reflexivity.
 Qed.
 
 Lemma ws_only_nl_sp1 : ws_only m_nl_sp1.
@@ -299,10 +313,10 @@ Definition fmt_run_unfolded (cfg : fcfg) (r : list Z) : list Z :=
   let s := resub (m_nl_sp_end ind) 0 s in
   let s := if f_at_start cfg then sub_head_sp_dollar s else s in
   let s := resub (m_nl_nl1 [NL; NL]) 0 s in
-  if f_at_end cfg then resub m_spnl1_end 0 s else s.
+  if f_at_end cfg then resub m_sp1_end 0 (resub m_spnl_nl_end 0 s) else s.
 
 Lemma fmt_run_eq cfg r : fmt_run cfg r = fmt_run_unfolded cfg r.
-Proof. reflexivity. Qed.
+Proof. destruct cfg as [a [|] w d]; reflexivity. Qed.
 
 Theorem fmt_run_nonws cfg r : nonws (fmt_run cfg r) = nonws r.
 Proof.
@@ -316,7 +330,7 @@ Proof.
     | rewrite resub_nonws; [cbn [skipn] | first
         [ apply ws_only_byte; reflexivity | apply ws_only_pair; reflexivity | apply ws_only_sp1_nl
         | apply ws_only_nl_sp_xx | apply ws_only_nl_sp_end | apply ws_only_nl_nl1; reflexivity
-        | apply ws_only_spnl1_end ] ] ];
+        | apply ws_only_spnl_nl_end | apply ws_only_sp1_end ] ] ];
   reflexivity.
 Qed.
 
